@@ -706,6 +706,9 @@ func (d *diffEnv) compareDB(db int, args []string, tag, prior string, got resp.V
 	if got.IsError() && prev != nil && !inMulti {
 		for k, before := range prev.Keys {
 			after := dump.Keys[k]
+			if strings.Contains(before.Type, "-but-") || (before.PTTL == -2 && before.Type != "none") {
+				continue // the previous dump caught this key in the middle of its natural expiry (TYPE, PTTL and EXISTS disagree)
+			}
 			if after != nil && !sameDump(before, after, prev.T0, prev.T1, dump.T0, dump.T1) {
 				// natural expiry between (or during) the dumps is not a mutation
 				if before.PTTL >= 0 && before.PTTL < (dump.T1-prev.T0)+1000 {
